@@ -8,6 +8,7 @@
 use serde_json::{json, Value};
 use std::time::{Duration, Instant};
 
+mod deco;
 mod rng;
 mod c15;
 mod c06;
